@@ -41,6 +41,121 @@ def unparse_roundtrip(root):
     return n
 
 
+def rename_locals(root):
+    """Behaviour-preserving rewrite: alpha-rename the local variables of every function that has no nested
+    function/lambda/comprehension-free-variable subtleties (locals = names stored in the function, not parameters,
+    not declared global/nonlocal)."""
+    import ast
+
+    class Renamer(ast.NodeTransformer):
+        def __init__(self, names):
+            self.names = names
+
+        def visit_Name(self, node):
+            if node.id in self.names:
+                return ast.copy_location(ast.Name(id=node.id + "_r", ctx=node.ctx), node)
+            return node
+
+        def visit_ExceptHandler(self, node):
+            if node.name in self.names:
+                node.name = node.name + "_r"
+            self.generic_visit(node)
+            return node
+
+    n = 0
+    for dp, dn, fn in os.walk(os.path.join(root, "indi")):
+        for f in fn:
+            if not f.endswith(".py"):
+                continue
+            path = os.path.join(dp, f)
+            src = open(path, encoding="utf-8").read()
+            if not src.strip():
+                continue
+            tree = ast.parse(src)
+            changed = False
+            for fn_ in [x for x in ast.walk(tree) if isinstance(x, (ast.FunctionDef, ast.AsyncFunctionDef))]:
+                inner = [x for x in ast.walk(fn_) if x is not fn_ and isinstance(x, (ast.FunctionDef, ast.AsyncFunctionDef, ast.Lambda, ast.ClassDef, ast.Global, ast.Nonlocal))]
+                if inner:
+                    continue
+                params = {a.arg for a in fn_.args.posonlyargs + fn_.args.args + fn_.args.kwonlyargs}
+                if fn_.args.vararg:
+                    params.add(fn_.args.vararg.arg)
+                if fn_.args.kwarg:
+                    params.add(fn_.args.kwarg.arg)
+                stored = {x.id for x in ast.walk(fn_) if isinstance(x, ast.Name) and isinstance(x.ctx, ast.Store)}
+                stored |= {h.name for h in ast.walk(fn_) if isinstance(h, ast.ExceptHandler) and h.name}
+                names = {s for s in stored if s not in params and not s.startswith("__")}
+                # a local that shadows a module-level name used before assignment would change meaning: skip those
+                if not names:
+                    continue
+                fn_.body = [Renamer(names).visit(st) for st in fn_.body]
+                changed = True
+                n += 1
+            if changed:
+                out = ast.unparse(ast.fix_missing_locations(tree)) + "\n"
+                compile(out, path, "exec")
+                open(path, "w", encoding="utf-8").write(out)
+    return n
+
+
+def _rewrite_all(root, transform):
+    import ast
+    n = 0
+    for dp, dn, fn in os.walk(os.path.join(root, "indi")):
+        for f in fn:
+            if not f.endswith(".py"):
+                continue
+            path = os.path.join(dp, f)
+            src = open(path, encoding="utf-8").read()
+            if not src.strip():
+                continue
+            tree = ast.parse(src)
+            k = transform(tree)
+            if k:
+                out = ast.unparse(ast.fix_missing_locations(tree)) + "\n"
+                compile(out, path, "exec")
+                open(path, "w", encoding="utf-8").write(out)
+                n += k
+    return n
+
+
+def invert_ifs(root):
+    """Behaviour-preserving rewrite: 'if c: A else: B' -> 'if not c: B else: A' (plain if/else only, no elif chains)."""
+    import ast
+
+    def tr(tree):
+        k = 0
+        for node in ast.walk(tree):
+            if isinstance(node, ast.If) and node.orelse and not (len(node.orelse) == 1 and isinstance(node.orelse[0], ast.If)):
+                node.test = ast.UnaryOp(op=ast.Not(), operand=node.test)
+                node.body, node.orelse = node.orelse, node.body
+                k += 1
+        return k
+
+    return _rewrite_all(root, tr)
+
+
+def values_for_items(root):
+    """Behaviour-preserving rewrite: 'for k, v in d.items()' -> 'for v in d.values()' when k is unused in the loop."""
+    import ast
+
+    def tr(tree):
+        k = 0
+        for node in ast.walk(tree):
+            if isinstance(node, ast.For) and isinstance(node.target, ast.Tuple) and len(node.target.elts) == 2 and all(isinstance(e, ast.Name) for e in node.target.elts):
+                it = node.iter
+                if isinstance(it, ast.Call) and isinstance(it.func, ast.Attribute) and it.func.attr == "items" and not it.args:
+                    key = node.target.elts[0].id
+                    used = any(isinstance(x, ast.Name) and x.id == key for st in node.body + node.orelse for x in ast.walk(st))
+                    if not used:
+                        node.target = node.target.elts[1]
+                        it.func.attr = "values"
+                        k += 1
+        return k
+
+    return _rewrite_all(root, tr)
+
+
 def run_one(entry, evidence_dir):
     mid, kind, props, rule, file, old, new = entry
     d = tempfile.mkdtemp(prefix="indilint-selftest-")
@@ -49,6 +164,12 @@ def run_one(entry, evidence_dir):
         shutil.copytree(os.path.join(REPO, "indi"), os.path.join(d, "indi"))
         if file == "*unparse*":
             res["modules"] = unparse_roundtrip(d)
+        elif file == "*rename-locals*":
+            res["functions"] = rename_locals(d)
+        elif file == "*invert-ifs*":
+            res["ifs"] = invert_ifs(d)
+        elif file == "*values-for-items*":
+            res["loops"] = values_for_items(d)
         else:
             path = os.path.join(d, file)
             src = open(path, encoding="utf-8").read()
@@ -94,6 +215,9 @@ def run_for_property(prop: str, jobs: int = 16):
     entries = [e for e in M if prop in e[2]]
     entries = [(e[0], e[1], [prop] if e[1] == "preserve" else e[2], e[3], e[4], e[5], e[6]) for e in entries if e[1] == "preserve" or e[2][0] == prop]
     entries.append((f"{prop}-unparse-roundtrip", "preserve", [prop], None, "*unparse*", "", ""))
+    entries.append((f"{prop}-rename-locals", "preserve", [prop], None, "*rename-locals*", "", ""))
+    entries.append((f"{prop}-invert-ifs", "preserve", [prop], None, "*invert-ifs*", "", ""))
+    entries.append((f"{prop}-values-for-items", "preserve", [prop], None, "*values-for-items*", "", ""))
     t0 = time.time()
     evdir = tempfile.mkdtemp(prefix="indilint-selftest-ev-")
     try:
@@ -117,6 +241,9 @@ def main(argv=None):
     entries = list(M)
     allprops = [f"C{i:02d}" for i in range(1, 21)]
     entries.append(("all-unparse-roundtrip", "preserve", allprops, None, "*unparse*", "", ""))
+    entries.append(("all-rename-locals", "preserve", allprops, None, "*rename-locals*", "", ""))
+    entries.append(("all-invert-ifs", "preserve", allprops, None, "*invert-ifs*", "", ""))
+    entries.append(("all-values-for-items", "preserve", allprops, None, "*values-for-items*", "", ""))
     if sel:
         entries = [e for e in entries if set(e[2]) & sel]
         entries = [(e[0], e[1], [p for p in e[2] if p in sel] if e[1] == "preserve" else e[2], e[3], e[4], e[5], e[6]) for e in entries]
